@@ -10,6 +10,7 @@ import symtorch
 from symtorch import S, T, D
 from symtorch.jets import J
 from harness.base import grads, zero_if_none
+from harness.paramgraph import param_graph_claims
 from harness.c07 import POLY, _jet_tensor
 
 PROPERTY = "C08"
@@ -194,6 +195,32 @@ def representations(cx, method="rk4", npoints=3, reverse=False):
     return "ok"
 
 
+def param_graph(cx, method="euler", kind="derived", reverse=False):
+    """parameters that are not independent leaves: a tensor derived from another parameter (q = 2k, both passed), the same
+    tensor passed twice, a derived tensor alone.  Reference (differential): the same call with INDEPENDENT leaves (a, b) of
+    the same values, combined by the chain rule in the harness; first order with the plain and the graph-recording
+    backward, second order."""
+    k = cx.sym("k", (1,), requires_grad=True)
+    y0 = cx.sym("y0", (1,), requires_grad=True)
+    t0 = cx.scalar("t0")
+    dt = cx.scalar("dt", lo=0.25, hi=1, positive=True)
+    sgn = -1 if reverse else 1
+    ts = cx.from_array(np.array([t0 + sgn * dt * i for i in range(3)], dtype=object))
+    w = cx.sym("w", (3, 1))
+
+    def f(t, y, a, b):
+        return -(a * b) * y + t * a
+
+    def f1(t, y, b):
+        return -b * y + t * b * b
+    if kind == "derived_only":
+        call = lambda a, b: (w * solve_ivp(f1, ts, y0, params=(b,), method=method)).sum()
+    else:
+        call = lambda a, b: (w * solve_ivp(f, ts, y0, params=(a, b), method=method)).sum()
+    param_graph_claims(cx, call, k, kind, others=[y0])
+    return "ok"
+
+
 def adaptive_graph(cx, method="rk45"):
     """adaptive methods: the graph-recording backward (incl. the time points) works and agrees with the plain one
     (step acceptance forced: the error norm is replaced by 0.5)"""
@@ -228,6 +255,10 @@ def configs(tier):
     add("series/euler/backward_in_time", series_grad, method="euler", p=1, sigma=-1)
     add("adaptive_graph/rk45", adaptive_graph, method="rk45")
     add("adaptive_graph/rk23", adaptive_graph, method="rk23")
+    for kind in ("derived", "duplicate", "derived_only"):
+        add("param_graph/euler/%s" % kind, param_graph, method="euler", kind=kind)
+    add("param_graph/rk4/derived", param_graph, method="rk4", kind="derived")
+    add("param_graph/euler/derived/decreasing", param_graph, method="euler", kind="derived", reverse=True)
     add("representations/euler/3points", representations, method="euler", npoints=3)
     add("representations/rk4/2points", representations, method="rk4", npoints=2)
     add("representations/euler/3points/decreasing", representations, method="euler", npoints=3, reverse=True)
